@@ -1,12 +1,13 @@
 import Gv.Oracle.Seq
 import Gv.Oracle.Bag
+import Gv.Oracle.Rand
 /-!
 oracle: reads lines `<id> \t <impl result> \t <op> \t <arg>...` and prints
 `<id> \t <model result> \t <verdict>`.
 -/
 open Gv Gv.Oracle
 
-def handlers : List Handler := [SeqOps.handle, BagOps.handle]
+def handlers : List Handler := [SeqOps.handle, BagOps.handle, RandOps.handle]
 
 def answer (op : String) (args : List String) (impl : String) : Ans :=
   match handlers.findSome? (fun h => h op args impl) with
